@@ -1,6 +1,6 @@
 use std::collections::{BTreeMap, HashMap};
 
-use marrow::datatypes::{DataType, Field, MapMeta, TimeUnit};
+use marrow::datatypes::{DataType, Field, MapMeta, TimeUnit, UnionMode};
 use serde::Serialize;
 
 use crate::internal::{
@@ -298,7 +298,10 @@ fn build_builder(path: String, field: &Field) -> Result<ArrayBuilder> {
                 build_builder(value_path, &value_field)?,
             ))
         }
-        T::Union(union_fields, _) => {
+        T::Union(union_fields, mode) => {
+            if !matches!(mode, UnionMode::Dense) {
+                fail!(in ctx, "Only dense unions are supported");
+            }
             let mut fields = Vec::new();
             for (idx, (type_id, field)) in union_fields.iter().enumerate() {
                 if usize::try_from(*type_id) != Ok(idx) {
